@@ -17,6 +17,11 @@
 (*   broken  rule without expr: yaml/parse, no diagnostics                 *)
 (*   both    bare + regexp problems on one rule                            *)
 (*   ovr     alert overriding the label `team` (the group may set it: grp) *)
+(*   smelly  selectors promql/regexp calls smelly; every configuration has *)
+(*           check "promql/regexp" { smelly = false } (settings shared by  *)
+(*           all workers)                                                  *)
+(* sym: the second file is a symbolic link to the first one - the same     *)
+(*      problems under two Path.Name with one Path.SymlinkTarget           *)
 (* cfg: none (defaults) | same (every configured check warns; two blocks   *)
 (*      require the label team, so two jobs report the identical problem) *)
 (*      | mixed (the same checks at different severities)                  *)
@@ -24,15 +29,15 @@
 (***************************************************************************)
 EXTENDS Naturals, Sequences, TLC, Json
 
-CONSTANTS MaxRules, Kinds, Cfgs, Twos, Grps
+CONSTANTS MaxRules, Kinds, Cfgs, Twos, Grps, Syms
 
-VARIABLES cfg, rules, two, grp
-vars == <<cfg, rules, two, grp>>
+VARIABLES cfg, rules, two, grp, sym
+vars == <<cfg, rules, two, grp, sym>>
 
-Init == cfg \in Cfgs /\ two \in Twos /\ grp \in Grps /\ rules = <<>>
-AddRule(k) == Len(rules) < MaxRules /\ rules' = Append(rules, k) /\ UNCHANGED <<cfg, two, grp>>
+Init == cfg \in Cfgs /\ two \in Twos /\ grp \in Grps /\ sym \in Syms /\ (sym => two) /\ rules = <<>>
+AddRule(k) == Len(rules) < MaxRules /\ rules' = Append(rules, k) /\ UNCHANGED <<cfg, two, grp, sym>>
 Next == \E k \in Kinds : AddRule(k)
 Spec == Init /\ [][Next]_vars
 
-EmitCase == Len(rules) = 0 \/ PrintT(<<"CASE", ToJson([cfg |-> cfg, rules |-> rules, two |-> two, grp |-> grp])>>)
+EmitCase == Len(rules) = 0 \/ PrintT(<<"CASE", ToJson([cfg |-> cfg, rules |-> rules, two |-> two, grp |-> grp, sym |-> sym])>>)
 =============================================================================
